@@ -94,10 +94,8 @@ Definition api_not_open_silent_stmt : Prop :=
   forall r a r' ev, api_step r a = (r', ev) ->
     n_open (rn r) <> 3 -> (api_calls_open a = true -> open_completes r = false) -> clock_ok (rn r) ->
     ev = [] /\ n_q (rn r') = n_q (rn r) /\ n_drv (rn r') = n_drv (rn r) /\ n_open (rn r') <> 3.
-Definition api_not_open_noclock_refuted_stmt : Prop :=
-  exists (r:rnode) (force:bool) (id len:Z) (data:list Z) (ok:bool),
-    n_open (rn r) <> 3 /\ queue_empty (n_q (rn r)) /\ open_completes r = false /\
-    In (EvTx id len data ok) (snd (api_step r (ASendHeartbeatAll force))).
+(* (api_not_open_noclock_refuted_stmt, the boundary example for SendHeartbeat(force) without [clock_ok], was removed with the repair in /repo:
+   SendHeartbeat(bool) returns at once on a node that is not open; [clock_ok] stays as a hypothesis that is no longer needed for that call) *)
 
 (* the extended step on a node that is not open (C04 statement 2(b) over [xop]; the queue hypothesis is that of the base statement) *)
 Definition x_calls_open (o:xop) : bool := match o with XBase o' => calls_open o' | XApi a => api_calls_open a end.
